@@ -88,6 +88,7 @@ type Contract struct {
 	AllowPanic bool                // explicit panic statements are part of the function's behaviour (no obligation)
 	NoSafety  bool                 // index/slice/nil obligations are not generated (stated in evidence; not claimed)
 	NoAssertCheck bool             // type assertions x.(T) are assumed to hold (stated in evidence)
+	Partial   bool                 // only call-site / nocall clauses of the body are proved; ensures, frame and safety stay assumed (stated in evidence)
 	NoCall    []string             // callee names that must not be called (e.g. blocking operations)
 	Then      *Contract            // second phase of a blocking call (after the environment has run)
 	OnSpawn   []GhostAssign        // initial values of thread-local ghosts when started with `go`
@@ -114,7 +115,7 @@ func newSpecSet() *SpecSet {
 var directiveKW = map[string]bool{"pure": true, "opaque": true, "axiom": true, "lemma": true, "func": true, "extern": true,
 	"requires": true, "ensures": true, "modifies": true, "loop": true, "use": true, "names": true,
 	"expect_obligations": true, "ghost": true, "at": true, "trusted": true, "property": true, "noreturn": true,
-	"inline": true, "hint": true, "exit": true, "bounded": true, "callee": true, "shared": true, "rely": true, "guar": true, "ginv": true, "nocall": true, "then": true, "onspawn": true, "allowpanic": true, "nosafety": true, "assume_typeasserts": true}
+	"inline": true, "hint": true, "exit": true, "bounded": true, "callee": true, "shared": true, "rely": true, "guar": true, "ginv": true, "nocall": true, "then": true, "onspawn": true, "allowpanic": true, "nosafety": true, "assume_typeasserts": true, "partial": true}
 
 // readDirectives returns logical directive lines (continuations joined).
 func readDirectives(path string, prefixed bool) ([]string, []int, error) {
@@ -403,6 +404,8 @@ func (ss *SpecSet) loadSpecFile(path string, prefixed bool, pkgDir string) error
 				cur.NoSafety = true
 			case d == "assume_typeasserts":
 				cur.NoAssertCheck = true
+			case d == "partial":
+				cur.Partial = true
 			case d == "inline":
 				cur.Inline = true
 			case strings.HasPrefix(d, "modifies"):
